@@ -439,6 +439,9 @@ impl Resolver<'_> {
                     .map(|x| TyTupleField::Single(Some(x), None))
                     .collect();
 
+                // the type comes from the header, not from the rows: with zero rows
+                // the array expression alone would be typed `[]`, which is not a relation
+                let ty = Ty::relation(columns.clone());
                 let frame =
                     self.declare_table_for_literal(expr_id, Some(columns), Some(input_name));
 
@@ -457,6 +460,7 @@ impl Resolver<'_> {
                 let res = Expr {
                     lineage: Some(frame),
                     id: text_expr.id,
+                    ty: Some(ty),
                     ..res
                 };
                 return Ok(res);
